@@ -379,3 +379,117 @@ Proof.
       apply in_map_iff. exists (a, b). split; [reflexivity|assumption]. }
     unfold vslack in H2. cbn [fst snd] in H2. destruct (before r a b); lra.
 Qed.
+
+(* ============================================================================================== *)
+(* 4. completeness of the mirror                                                                   *)
+(* ============================================================================================== *)
+Definition lp_complete (lp : list (list N) -> list N -> option (list Q * list (N * Q))) : Prop :=
+  forall prefs axis, (exists vs xs, lp_sat prefs axis vs xs) -> lp prefs axis <> None.
+
+Lemma qdist_opp p y : qdist (- p) (- y) == qdist p y.
+Proof. unfold qdist. assert (E : - p - - y == - (p - y)) by ring. rewrite E. apply Qabs_opp. Qed.
+
+Lemma realised_mirror x p r : vote_realised x p r -> vote_realised (fun c => - x c) (- p) r.
+Proof. intros H i j a b Hij Hi Hj. unfold closer. rewrite !qdist_opp. exact (H i j a b Hij Hi Hj). Qed.
+
+Lemma realised_Qeq x p p' r : p == p' -> vote_realised x p r -> vote_realised x p' r.
+Proof.
+  intros E H i j a b Hij Hi Hj. specialize (H i j a b Hij Hi Hj). unfold closer, qdist in *. now rewrite <- E.
+Qed.
+
+(* the core: an embedding in which v_1 is left of v_n *)
+Lemma complete_core lp alts orders (x : N -> Q) (vpos : list Q) cminus v1t cplus vnt p1 pn :
+  lp_complete lp -> NoDup alts -> Forall (fun r => Permutation alts r) orders ->
+  Forall2 (vote_realised x) vpos orders ->
+  Permutation alts (cminus :: v1t) -> Permutation alts (cplus :: vnt) ->
+  vote_realised x p1 (cminus :: v1t) -> vote_realised x pn (cplus :: vnt) -> p1 < pn ->
+  exists g, colour_loop (cminus :: v1t) (cplus :: vnt) alts (gamma0 (cminus :: v1t) (cplus :: vnt) cminus cplus) = Some g /\
+            exists y, post lp alts orders (cminus :: v1t) (cplus :: vnt) g = Ok (Some y).
+Proof.
+  intros Hlpc Hnd Hrk Hre P1 Pn R1 Rn Hlt.
+  destruct (colouring_succeeds x p1 pn cminus cplus v1t vnt alts Hlt P1 Pn R1 Rn) as (g & Ecl & HI).
+  exists g. split; [exact Ecl|]. unfold post.
+  set (v1 := cminus :: v1t) in *. set (vn := cplus :: vnt) in *.
+  set (plus := filter (fun c => negb (is_grey (g c))) alts).
+  rewrite axis_is_sort. fold plus.
+  set (kc := fun c => (- Z.of_nat (axis_count v1 vn g plus c))%Z).
+  assert (Hndp : NoDup plus) by (apply NoDup_filter; assumption).
+  assert (Hpa : forall c, In c plus -> In c alts) by (intros c Hc; apply filter_In in Hc; tauto).
+  assert (Hmem : forall c, In c plus -> member v1 vn g c).
+  { intros c Hc. apply filter_In in Hc. destruct Hc as (Hc & Hgc). repeat split.
+    - intros E. rewrite E in Hgc. discriminate.
+    - eapply Permutation_in; eassumption.
+    - eapply Permutation_in; eassumption. }
+  assert (Hanti : forall a b, In a plus -> In b plus -> a <> b -> left_of v1 vn g a b = negb (left_of v1 vn g b a)).
+  { intros a b Ha Hb. apply left_of_antisym; auto. }
+  assert (Haxp : Permutation plus (sort_by kc plus)) by apply sort_by_perm.
+  assert (Hsorted : StronglySorted (fun a b => x a < x b) (sort_by kc plus)).
+  { apply (SS_weaken_nodup (fun a b => (kc a <= kc b)%Z)); [eapply Permutation_NoDup; eassumption| |apply sort_by_sorted].
+    intros a b Ha Hb Hne Hk. apply (Permutation_in _ (Permutation_sym Haxp)) in Ha, Hb.
+    destruct (left_of v1 vn g a b) eqn:Eab.
+    - exact (left_of_positions x p1 pn cminus cplus v1t vnt alts Hlt P1 Pn R1 Rn g HI a b (Hpa a Ha) (Hpa b Hb) Hne Eab).
+    - exfalso. rewrite (Hanti a b Ha Hb Hne) in Eab. apply negb_false_iff in Eab.
+      pose proof (cnt_strict v1 vn g plus b a Hndp Hmem Hb Ha (not_eq_sym Hne) Eab) as Hc. unfold kc in Hk.
+      rewrite !(axis_count_closed v1 vn g plus _ Hndp Hanti), (proj2 (memb_In a plus) Ha), (proj2 (memb_In b plus) Hb) in Hk. lia. }
+  assert (Hfeas : exists vs xs, lp_sat (map (filter (fun c => memb c plus)) orders) (sort_by kc plus) vs xs).
+  { apply (lp_feasible x vpos orders (sort_by kc plus) (fun c => memb c plus) Hsorted).
+    - intros c Hc. apply memb_In. eapply Permutation_in; [apply Permutation_sym; exact Haxp|exact Hc].
+    - eapply Forall_impl; [|exact Hrk]. cbn beta. intros r Hr c Hc. eapply Permutation_in; [exact Hr|].
+      apply Hpa. eapply Permutation_in; [apply Permutation_sym; exact Haxp|exact Hc].
+    - exact Hre. }
+  pose proof (Hlpc _ _ Hfeas) as Hne.
+  destruct (lp (map (filter (fun c => memb c plus)) orders) (sort_by kc plus)) as [[voters alternatives]|]; [|congruence].
+  eexists. reflexivity.
+Qed.
+
+Theorem eucl_algo_complete lp alts orders :
+  lp_complete lp -> wf_profile alts orders -> orders <> [] -> alts <> [] -> Euclidean orders ->
+  exists y, eucl_algo lp alts orders = Ok (Some y).
+Proof.
+  intros Hlpc Hwf Hone Hane HE. pose proof Hwf as (Hnd & Hndo & Hrk).
+  destruct (eucl_algo_complete_partial alts orders Hwf HE) as (sc_order & Esc).
+  destruct HE as (x & vpos & Hre). unfold realises in Hre.
+  rewrite eucl_algo_post, Esc.
+  pose proof (sc_algo_sound alts orders sc_order Hwf Esc) as Hw.
+  apply (sc_witness_check_perm alts orders sc_order Hndo) in Hw. destruct Hw as (Hperm & _).
+  destruct sc_order as [|v1 seqt]; [apply Permutation_sym, Permutation_nil in Hperm; congruence|]. cbv zeta.
+  assert (Hin : forall r, In r (v1 :: seqt) -> In r orders).
+  { intros r Hr. eapply Permutation_in; [apply Permutation_sym; exact Hperm|exact Hr]. }
+  assert (Hpr : forall r, In r (v1 :: seqt) -> Permutation alts r).
+  { intros r Hr. rewrite Forall_forall in Hrk. apply Hrk. now apply Hin. }
+  pose proof (Hpr v1 (or_introl eq_refl)) as P1. pose proof (Hpr _ (last_In v1 seqt v1)) as Pn.
+  destruct (Forall2_In_r _ _ _ v1 Hre (Hin v1 (or_introl eq_refl))) as (p1 & _ & R1).
+  destruct (Forall2_In_r _ _ _ _ Hre (Hin _ (last_In v1 seqt v1))) as (pn & _ & Rn).
+  destruct v1 as [|cminus v1t] eqn:Ev1.
+  { apply Permutation_sym, Permutation_nil in P1. congruence. }
+  rewrite <- Ev1 in *.
+  destruct (last (v1 :: seqt) v1) as [|cplus vnt] eqn:Evn.
+  { apply Permutation_sym, Permutation_nil in Pn. congruence. }
+  destruct (length orders =? 1)%nat eqn:En; [eexists; reflexivity|]. apply Nat.eqb_neq in En.
+  assert (Hneq : v1 <> cplus :: vnt).
+  { assert (Hnds : NoDup (v1 :: seqt)) by (eapply Permutation_NoDup; eassumption).
+    apply NoDup_cons_iff in Hnds. destruct Hnds as (Hnin & _). intros E. apply Hnin.
+    assert (Hs : seqt <> []).
+    { intros Es. apply Permutation_length in Hperm. rewrite Es in Hperm. cbn in Hperm. congruence. }
+    pose proof (last_in_tail v1 seqt v1 Hs) as Hl. rewrite Evn, <- E in Hl. exact Hl. }
+  rewrite Ev1 in *.
+  destruct (Q_dec p1 pn) as [[Hlt|Hgt]|Heq].
+  - destruct (complete_core lp alts orders x vpos cminus v1t cplus vnt p1 pn Hlpc Hnd Hrk Hre P1 Pn R1 Rn Hlt)
+      as (g & Ecl & y & Ey).
+    rewrite Ecl. exists y. exact Ey.
+  - assert (Hre' : Forall2 (vote_realised (fun c => - x c)) (map Qopp vpos) orders).
+    { apply Forall2_map_l. eapply Forall2_impl; [|exact Hre]. cbn beta. intros p r _ _ H. now apply realised_mirror. }
+    destruct (complete_core lp alts orders (fun c => - x c) (map Qopp vpos) cminus v1t cplus vnt (- p1) (- pn)
+                Hlpc Hnd Hrk Hre' P1 Pn (realised_mirror _ _ _ R1) (realised_mirror _ _ _ Rn) ltac:(lra))
+      as (g & Ecl & y & Ey).
+    rewrite Ecl. exists y. exact Ey.
+  - exfalso. apply Hneq. apply (realised_Qeq x pn p1 _ (Qeq_sym _ _ Heq)) in Rn.
+    apply before_ext; [eapply Permutation_NoDup; eassumption|eapply Permutation_trans; [apply Permutation_sym; exact P1|exact Pn]|].
+    intros a b Ha Hb.
+    assert (Ha' : In a (cplus :: vnt)) by (eapply Permutation_in; [|exact Ha]; eapply Permutation_trans; [apply Permutation_sym; exact P1|exact Pn]).
+    assert (Hb' : In b (cplus :: vnt)) by (eapply Permutation_in; [|exact Hb]; eapply Permutation_trans; [apply Permutation_sym; exact P1|exact Pn]).
+    pose proof (before_closer x p1 _ a b R1 Ha Hb) as B1. pose proof (before_closer x p1 _ a b Rn Ha' Hb') as Bn.
+    destruct (before (cminus :: v1t) a b) eqn:E1, (before (cplus :: vnt) a b) eqn:En'; try reflexivity.
+    + pose proof (proj2 Bn (proj1 B1 eq_refl)). discriminate.
+    + pose proof (proj2 B1 (proj1 Bn eq_refl)). discriminate.
+Qed.
